@@ -196,7 +196,9 @@ def run(tier, seed, replay=None):
     if not replay:
         wide_transfer(res, tier, seed)
     etr = EL.record_corpus(elects)
-    EL.judge(res, PID, etr, os.path.join(OUT, PID, "traces"), nontrivial=lambda t: len(t["events"]) >= 2)
+    verdicts, byid = EL.judge(res, PID, etr, os.path.join(OUT, PID, "traces"), nontrivial=lambda t: len(t["events"]) >= 2)
+    from ..common import in_arith_range
+    EL.wide_stv(res, PID, tier, seed, verdicts, byid, rules=("STV", "STV", "IRV"), replay_traces=[t for t in etr if not in_arith_range(t)] if replay else None)
     res.notes["transfer_calls"] = len(calls)
     res.notes["transfer_traces"] = len(traces)
     res.notes["elections"] = len(elects)
